@@ -1,2 +1,184 @@
-/- placeholder: the C18 driver is not built yet -/
-def main : IO Unit := IO.println "C18: driver not built yet"
+/- C18 line-protocol driver: prints `model <TAB> spec` for each case line. -/
+import Tetl.Proto
+import Tetl.C18.Model
+import Tetl.C18.Spec
+namespace Tetl.C18.Driver
+open Tetl Tetl.Proto
+
+def fmtE {α : Type} (f : α → String) : Except Err α → String
+  | .ok a => f a
+  | .error e => e.fmt
+
+/-- pointer result relative to the pointer argument `p` -/
+def fmtPtr (p : Nat) : Option Nat → String
+  | none => "null"
+  | some a => toString ((a : Int) - (p : Int))
+
+def fmtRel : Option Nat → String
+  | none => "null"
+  | some a => toString a
+
+/-- writer result: returned pointer relative to `dest`, then the whole destination allocation -/
+def fmtW (d : Nat) (r : Nat × Buf) : String := s!"{(r.1 : Int) - (d : Int)}:{fmtNatList r.2}"
+def fmtWS (b : List Nat) : String := s!"0:{fmtNatList b}"
+
+def ctypeM (f : String) (c : Int) : Option String :=
+  match f with
+  | "isalnum" => some (fmtBool (isalnum c)) | "isalpha" => some (fmtBool (isalpha c))
+  | "isblank" => some (fmtBool (isblank c)) | "iscntrl" => some (fmtBool (iscntrl c))
+  | "isdigit" => some (fmtBool (isdigit c)) | "isgraph" => some (fmtBool (isgraph c))
+  | "islower" => some (fmtBool (islower c)) | "isprint" => some (fmtBool (isprint c))
+  | "ispunct" => some (fmtBool (ispunct c)) | "isspace" => some (fmtBool (isspace c))
+  | "isupper" => some (fmtBool (isupper c)) | "isxdigit" => some (fmtBool (isxdigit c))
+  | "tolower" => some (toString (tolower c)) | "toupper" => some (toString (toupper c))
+  | _ => none
+
+def ctypeS (f : String) (c : Int) : Option String :=
+  match f with
+  | "isalnum" => some (fmtBool (Spec.isalnum c)) | "isalpha" => some (fmtBool (Spec.isalpha c))
+  | "isblank" => some (fmtBool (Spec.isblank c)) | "iscntrl" => some (fmtBool (Spec.iscntrl c))
+  | "isdigit" => some (fmtBool (Spec.isdigit c)) | "isgraph" => some (fmtBool (Spec.isgraph c))
+  | "islower" => some (fmtBool (Spec.islower c)) | "isprint" => some (fmtBool (Spec.isprint c))
+  | "ispunct" => some (fmtBool (Spec.ispunct c)) | "isspace" => some (fmtBool (Spec.isspace c))
+  | "isupper" => some (fmtBool (Spec.isupper c)) | "isxdigit" => some (fmtBool (Spec.isxdigit c))
+  | "tolower" => some (toString (Spec.tolower c)) | "toupper" => some (toString (Spec.toupper c))
+  | _ => none
+
+def wctypeM (f : String) (c : Nat) : Option String :=
+  match f with
+  | "iswalnum" => some (fmtBool (iswalnum c)) | "iswalpha" => some (fmtBool (iswalpha c))
+  | "iswblank" => some (fmtBool (iswblank c)) | "iswcntrl" => some (fmtBool (iswcntrl c))
+  | "iswdigit" => some (fmtBool (iswdigit c)) | "iswgraph" => some (fmtBool (iswgraph c))
+  | "iswlower" => some (fmtBool (iswlower c)) | "iswprint" => some (fmtBool (iswprint c))
+  | "iswpunct" => some (fmtBool (iswpunct c)) | "iswspace" => some (fmtBool (iswspace c))
+  | "iswupper" => some (fmtBool (iswupper c)) | "iswxdigit" => some (fmtBool (iswxdigit c))
+  | "towlower" => some (toString (towlower c)) | "towupper" => some (toString (towupper c))
+  | _ => none
+
+def wctypeS (f : String) (c : Nat) : Option String :=
+  match f with
+  | "iswalnum" => some (fmtBool (Spec.iswalnum c)) | "iswalpha" => some (fmtBool (Spec.iswalpha c))
+  | "iswblank" => some (fmtBool (Spec.iswblank c)) | "iswcntrl" => some (fmtBool (Spec.iswcntrl c))
+  | "iswdigit" => some (fmtBool (Spec.iswdigit c)) | "iswgraph" => some (fmtBool (Spec.iswgraph c))
+  | "iswlower" => some (fmtBool (Spec.iswlower c)) | "iswprint" => some (fmtBool (Spec.iswprint c))
+  | "iswpunct" => some (fmtBool (Spec.iswpunct c)) | "iswspace" => some (fmtBool (Spec.iswspace c))
+  | "iswupper" => some (fmtBool (Spec.iswupper c)) | "iswxdigit" => some (fmtBool (Spec.iswxdigit c))
+  | "towlower" => some (toString (Spec.towlower c)) | "towupper" => some (toString (Spec.towupper c))
+  | _ => none
+
+def step (_ : Unit) (l : Line) : Unit × String :=
+  let bad := ((), "bad-op\tbad-op")
+  let out (m s : String) := ((), m ++ "\t" ++ s)
+  let wide := (l.str? "ct").getD "char" == "wchar"
+  let ct : CT := if wide then CT.wchar else CT.char
+  let k : Nat → Int := Spec.key ct.bits ct.signedCmp
+  match l.op with
+  | "ctype" =>
+    match l.str? "f", l.int? "c" with
+    | some f, some c =>
+      match ctypeM f c, ctypeS f c with
+      | some m, some s => out m s
+      | _, _ => bad
+    | _, _ => bad
+  | "wctype" =>
+    match l.str? "f", l.nat? "c" with
+    | some f, some c =>
+      match wctypeM f c, wctypeS f c with
+      | some m, some s => out m s
+      | _, _ => bad
+    | _, _ => bad
+  | "strlen" =>
+    match l.natList? "s", l.nat? "off" with
+    | some s, some p => out (fmtE toString (strlen s p)) (toString (Spec.strlen s p))
+    | _, _ => bad
+  | "strcmp" =>
+    match l.natList? "a", l.nat? "aoff", l.natList? "b", l.nat? "boff" with
+    | some a, some i, some b, some j => out (fmtE toString (strcmp ct a i b j)) (toString (Spec.strcmp k a i b j))
+    | _, _, _, _ => bad
+  | "strncmp" =>
+    match l.natList? "a", l.nat? "aoff", l.natList? "b", l.nat? "boff", l.nat? "n" with
+    | some a, some i, some b, some j, some n =>
+      out (fmtE toString (strncmp ct a i b j n)) (toString (Spec.strncmp k a i b j n))
+    | _, _, _, _, _ => bad
+  | "memcmp" =>
+    match l.natList? "a", l.nat? "aoff", l.natList? "b", l.nat? "boff", l.nat? "n" with
+    | some a, some i, some b, some j, some n =>
+      out (fmtE toString (memcmp ct a i b j n)) (toString (Spec.memcmp k a i b j n))
+    | _, _, _, _, _ => bad
+  | "strchr" =>
+    match l.natList? "s", l.nat? "off", l.int? "ch" with
+    | some s, some p, some ch =>
+      out (fmtE (fmtPtr p) (strchr ct s p ch)) (fmtRel (Spec.strchr s p (Spec.toUnit ct.bits ch)))
+    | _, _, _ => bad
+  | "strrchr" =>
+    match l.natList? "s", l.nat? "off", l.int? "ch" with
+    | some s, some p, some ch =>
+      out (fmtE (fmtPtr p) (strrchr ct s p ch)) (fmtRel (Spec.strrchr s p (Spec.toUnit ct.bits ch)))
+    | _, _, _ => bad
+  | "memchr" =>
+    match l.natList? "s", l.nat? "off", l.int? "ch", l.nat? "n" with
+    | some s, some p, some ch, some n =>
+      out (fmtE (fmtPtr p) (memchr ct s p ch n)) (fmtRel (Spec.memchr s p (Spec.toUnit ct.bits ch) n))
+    | _, _, _, _ => bad
+  | "strspn" =>
+    match l.natList? "s", l.nat? "off", l.natList? "t", l.nat? "toff" with
+    | some s, some p, some t, some q => out (fmtE toString (strspn true s p t q)) (toString (Spec.strspn s p t q))
+    | _, _, _, _ => bad
+  | "strcspn" =>
+    match l.natList? "s", l.nat? "off", l.natList? "t", l.nat? "toff" with
+    | some s, some p, some t, some q => out (fmtE toString (strspn false s p t q)) (toString (Spec.strcspn s p t q))
+    | _, _, _, _ => bad
+  | "strpbrk" =>
+    match l.natList? "s", l.nat? "off", l.natList? "t", l.nat? "toff" with
+    | some s, some p, some t, some q => out (fmtE (fmtPtr p) (strpbrk s p t q)) (fmtRel (Spec.strpbrk s p t q))
+    | _, _, _, _ => bad
+  | "strstr" =>
+    match l.natList? "s", l.nat? "off", l.natList? "t", l.nat? "toff" with
+    | some s, some p, some t, some q => out (fmtE (fmtPtr p) (strstr s p t q)) (fmtRel (Spec.strstr s p t q))
+    | _, _, _, _ => bad
+  | "strcpy" =>
+    match l.natList? "dst", l.nat? "doff", l.natList? "src", l.nat? "soff" with
+    | some dst, some d, some src, some s => out (fmtE (fmtW d) (strcpy dst d src s)) (fmtWS (Spec.strcpy dst d src s))
+    | _, _, _, _ => bad
+  | "strncpy" =>
+    match l.natList? "dst", l.nat? "doff", l.natList? "src", l.nat? "soff", l.nat? "n" with
+    | some dst, some d, some src, some s, some n =>
+      out (fmtE (fmtW d) (strncpy dst d src s n)) (fmtWS (Spec.strncpy dst d src s n))
+    | _, _, _, _, _ => bad
+  | "strcat" =>
+    match l.natList? "dst", l.nat? "doff", l.natList? "src", l.nat? "soff" with
+    | some dst, some d, some src, some s => out (fmtE (fmtW d) (strcat dst d src s)) (fmtWS (Spec.strcat dst d src s))
+    | _, _, _, _ => bad
+  | "strncat" =>
+    match l.natList? "dst", l.nat? "doff", l.natList? "src", l.nat? "soff", l.nat? "n" with
+    | some dst, some d, some src, some s, some n =>
+      out (fmtE (fmtW d) (strncat dst d src s n)) (fmtWS (Spec.strncat dst d src s n))
+    | _, _, _, _, _ => bad
+  | "memcpy" =>
+    match l.natList? "dst", l.nat? "doff", l.natList? "src", l.nat? "soff", l.nat? "n" with
+    | some dst, some d, some src, some s, some n =>
+      out (fmtE (fmtW d) (memcpy dst d src s n)) (fmtWS (Spec.memcpy dst d src s n))
+    | _, _, _, _, _ => bad
+  | "memset" =>
+    match l.natList? "dst", l.nat? "doff", l.int? "ch", l.nat? "n" with
+    | some dst, some d, some ch, some n =>
+      out (fmtE (fmtW d) (memset ct dst d ch n)) (fmtWS (Spec.memset dst d (Spec.toUnit ct.bits ch) n))
+    | _, _, _, _ => bad
+  | "memmove" =>
+    match l.natList? "buf", l.nat? "doff", l.nat? "soff", l.nat? "n" with
+    | some b, some d, some s, some n => out (fmtE (fmtW d) (memmove b d s n)) (fmtWS (Spec.memmove b d s n))
+    | _, _, _, _ => bad
+  | "div" =>
+    match l.nat? "bits", l.int? "x", l.int? "y" with
+    | some bits, some x, some y =>
+      out (fmtE (fun r => s!"{r.1},{r.2}") (div bits x y)) s!"{Spec.divQuot x y},{Spec.divRem x y}"
+    | _, _, _ => bad
+  | "abs" =>
+    match l.nat? "bits", l.int? "x" with
+    | some bits, some x => out (fmtE toString (absImpl bits x)) (toString (Spec.abs x))
+    | _, _ => bad
+  | _ => bad
+
+end Tetl.C18.Driver
+
+def main : IO Unit := Tetl.Proto.runDriver () Tetl.C18.Driver.step
